@@ -6,7 +6,7 @@ from ..gen import Opt, schema_lines, LIST, MULTI, TITLE, NO_TITLE_DUPES, NOCASE,
 THEOREMS = ["C01_eq_replaces", "C01_pluseq_appends", "C01_scalar_last_wins", "C01_bad_value_rejected", "C01_multi_accumulates",
             "C01_new_title_appends", "C01_repeated_title_replaces", "C01_unique_title_rejected", "C01_single_section_merges",
             "C01_default_materialised", "C01_parse_eq", "C01_parse_pluseq", "C01_parse_pluseq_nonlist",
-            "C01_frame_local", "C01_compositional", "C01_compositional_top", "C01_refinement", "C01_items_then_eof", "C01_assign_scalar", "C01_assign_denotes", "C01_list_item", "C01_list_item_values", "C01_empty_list_item", "setopt_replace_plain", "setopt_list_plain", "list_tail_loop", "setOpt_setOpt", "setOpt_self", "C01_freeform_key_refound", "C01_freeform_key_found"]
+            "C01_frame_local", "C01_compositional", "C01_compositional_top", "C01_refinement", "C01_items_then_eof", "C01_assign_scalar", "C01_assign_denotes", "C01_list_item", "C01_list_item_values", "C01_empty_list_item", "setopt_replace_plain", "setopt_list_plain", "list_tail_loop", "setOpt_setOpt", "setOpt_self", "C01_freeform_key_refound", "C01_freeform_key_found", "C01_simple_holds_variable"]
 PARTIAL = ("Proved: (1) each clause of the statement as a law of the model's value store (what '=' / '+=' / repeated scalar / multi section / "
            "repeated title / unique titles / re-opened single section / defaults do) and what the token machine hands to the store on '=' and '+='; "
            "(2) the nesting structure, unconditionally: for EVERY list of items (assignments, braced lists, calls, comments, plain/titled sections "
